@@ -125,6 +125,7 @@ Fixpoint lookup (d : db) (n : str) : option raw :=
 Inductive res :=
 | Ok (name : str) (c : cfg)
 | ErrMissing (n : str)     (* LoadRaw failed: no such file *)
+| ErrCycle (n : str)       (* n is already being resolved (fixed loader only) *)
 | OutOfFuel.               (* the recursion did not end within the fuel *)
 
 (* the loop of resolveInheritance over the parents; ld = Loader.Load *)
@@ -159,9 +160,37 @@ Fixpoint load (fuel : nat) (d : db) (n : str) : res :=
     end
   end.
 
+(* The loader after the fix (fix: report inheritance cycles): load(name, visiting)
+   first looks for name in the chain of descriptions being resolved, then reads
+   the file, then resolves the parents with name appended to the chain. *)
+Definition visited (vis : list str) (n : str) : bool := existsb (str_eqb n) vis.
+
+Fixpoint loadv (fuel : nat) (d : db) (vis : list str) (n : str) : res :=
+  match fuel with
+  | O => OutOfFuel
+  | S f =>
+    if visited vis n then ErrCycle n
+    else
+    match lookup d n with
+    | None => ErrMissing n
+    | Some r =>
+      match inherits r with
+      | [] => Ok n (norm (fields r))
+      | ps =>
+        match merge_parents (loadv f d (n :: vis)) ps empty_cfg with
+        | inl e => e
+        | inr acc => Ok n (merge acc (fields r))
+        end
+      end
+    end
+  end.
+
 (* Resolver.Resolve adds only a check that Name is not empty; Name is the
-   requested name, and an empty name reads the file .json *)
-Definition resolve := load.
+   requested name, and an empty name reads the file .json.
+   fixed = true: the loader with the visiting chain (the code as it is now);
+   fixed = false: the loader before the fix, kept for the refutation theorems. *)
+Definition resolve (fixed : bool) (fuel : nat) (d : db) (n : str) : res :=
+  if fixed then loadv fuel d [] n else load fuel d n.
 
 (* ---------- the specification side: linearisation ---------- *)
 
@@ -231,6 +260,7 @@ Definition res_eqb (a b : res) : bool :=
   match a, b with
   | Ok n c, Ok n' c' => str_eqb n n' && cfg_eqb (norm c) (norm c')
   | ErrMissing n, ErrMissing n' => str_eqb n n'
+  | ErrCycle n, ErrCycle n' => str_eqb n n'
   | OutOfFuel, OutOfFuel => true
   | _, _ => false
   end.
@@ -270,6 +300,7 @@ Definition dn (name : string) (inh : list str) (f : cfg) (r : db) : db := (bs na
 Definition rnil : list res := [].
 Definition rok (name : string) (c : cfg) (r : list res) : list res := Ok (bs name) c :: r.
 Definition rmiss (name : string) (r : list res) : list res := ErrMissing (bs name) :: r.
+Definition rcyc (name : string) (r : list res) : list res := ErrCycle (bs name) :: r.
 Definition rloop (r : list res) : list res := OutOfFuel :: r.
 Definition mkcase (d : db) (qs : list str) (rs : list res) : (db * list str) * list res := ((d, qs), rs).
 Arguments sl _%string _.
@@ -280,3 +311,4 @@ Arguments fl _%string _ _.
 Arguments dn _%string _ _ _.
 Arguments rok _%string _ _.
 Arguments rmiss _%string _.
+Arguments rcyc _%string _.
